@@ -87,7 +87,23 @@ def handleHeaderWindow (impl : Json) : CaseResult :=
   { model := mkObj [("handler_ran_for_unregistered_peer", false), ("panic", false)], spec := ok,
     why := if ok then "" else if bad then "handler-invoked-for-a-peer-that-is-not-registered" else "wrapper-panicked" }
 
+/-- when the last admitted connection closes the contexts of *all* running handlers of the peer are
+cancelled — also of a handler whose stream arrived while the handshake was still in flight -/
+def handleStreamDuringHandshake (impl : Json) : CaseResult :=
+  let ok := jbool impl "handler_ran" && jbool impl "handler_context_cancelled_at_disconnect" && !(jbool impl "panic")
+  { model := mkObj [("handler_ran", true), ("handler_context_cancelled_at_disconnect", true), ("panic", false)], spec := ok,
+    why := if ok then "" else if !(jbool impl "handler_ran") then "stream-of-a-peer-whose-handshake-completed-was-not-served"
+      else "running-handler-not-cancelled-when-the-last-connection-closed" }
+
+/-- exactly one disconnect notification per removed peer, also while the node shuts down -/
+def handleNotifyAtShutdown (impl : Json) : CaseResult :=
+  let ok := jnat impl "notifications_for_two_removed_peers" == 2 && !(jbool impl "panic")
+  { model := mkObj [("notifications_for_two_removed_peers", 2), ("panic", false)], spec := ok,
+    why := if ok then "" else "not-exactly-one-disconnect-notification-per-removed-peer" }
+
 def handle (inp impl : Json) : CaseResult :=
+  if jstr inp "tag" == "notify-at-shutdown" then handleNotifyAtShutdown impl else
+  if jstr inp "tag" == "stream-during-handshake" then handleStreamDuringHandshake impl else
   if jstr inp "tag" == "header-window" then handleHeaderWindow impl else
   if jstr inp "tag" == "notify-order" then handleNotifyOrder impl else
   let ops := (jarr inp "ops").toList.map opOf
